@@ -290,13 +290,18 @@ CONTEXTS = [{"entry": "AsyncPolicy.context", "place": "call", "async_callbacks":
 SUGAR = [{"entry": "RetryPolicy", "place": "ctor", "every": 3},
          {"entry": "AsyncRetryPolicy", "place": "call", "async_callbacks": True, "every": 3, "permute": True}]
 
+# decorated functions: the operation tag is the given name or the function's own (every 2nd behaviour)
+DECORATED = [{"entry": "decorator", "place": "ctor", "every": 2},
+             {"entry": "async-decorator", "place": "ctor", "async_callbacks": True, "every": 2}]
+
 for _p in ("C01", "C02", "C03", "C04", "C05", "C10", "C11", "C13", "C14", "C16"):
     profile(_p, mc=f"RetryMC_{_p}.cfg", export=f"RetryMC_{_p}x.cfg",
             variants=WALL + TIMEOUT_SAMPLED if _p == "C02" else (FOUR + TIMEOUT_VARIANTS + SUGAR if _p == "C01" else
                                                                  FOUR + TIMEOUT_VARIANTS if _p == "C13" else
                                                (FOUR[:3] + SHARED if _p == "C10" else
                                                 (FOUR + WRAPPED if _p in ("C11", "C04") else
-                                                 (FOUR + CONTEXTS if _p == "C16" else FOUR)))),
+                                                 (FOUR + CONTEXTS if _p == "C16" else
+                                                  (FOUR + DECORATED if _p == "C14" else FOUR))))),
             n_random={"quick": 1500, "thorough": 30000},
             exports_extra={"C10": ["RetryMC_C10y.cfg"], "C05": ["RetryMC_C05y.cfg"]}.get(_p, []))
 
